@@ -1290,8 +1290,9 @@ func (s *sharedEntryAttributes) populateChoiceCaseResolvers(ctx context.Context)
 		for _, elem := range choiceResolver.GetElementNames() {
 			isNew := false
 			var val2 *int32
-			// Query the Index, stored in the treeContext for the per branch highes precedence
-			v := s.treeContext.GetTreeSchemaCacheClient().GetBranchesHighesPrecedence(ctx, append(s.Path(), elem), CacheUpdateFilterExcludeOwner(s.treeContext.GetActualOwner()))
+			// Query the Index, stored in the treeContext for the per branch highes precedence.
+			// The content of all the intents of the transaction is taken from the tree, not from the index.
+			v := s.treeContext.GetTreeSchemaCacheClient().GetBranchesHighesPrecedence(ctx, append(s.Path(), elem), CacheUpdateFilterExcludeOwners(s.treeContext.GetInvolvedOwners()))
 
 			child, childExists := s.childs.GetEntry(elem)
 			// set the value from the tree as well
